@@ -47,6 +47,9 @@ func c20States() []c20State {
 		{"key-only-rotated+reopened", core.Cfg{Mode: core.K, Seg: 100}, append(append([]core.Op(nil), kvOnly...), core.Op{Kind: "reopen"})},
 		{"sparse-sealed+reopened", core.Cfg{Mode: core.S, Seg: 100}, append(append([]core.Op(nil), kvOnly...), core.Op{Kind: "reopen"})},
 		{"sparse-mmap+reopened", core.Cfg{Mode: core.S, RW: core.M, Start: core.M, Seg: 100}, append(append([]core.Op(nil), kvOnly...), core.Op{Kind: "reopen"})},
+		// one element in every structure: two removals inside one transaction over-drain it
+		{"one-each", kv, []core.Op{up(core.Call{F: "Put", B: "b", K: "k", V: "v"}), up(core.Call{F: "RPush", B: "b", K: "k", Vs: []string{"a"}}),
+			up(core.Call{F: "SAdd", B: "b", K: "k", Vs: []string{"m"}}), up(core.Call{F: "ZAdd", B: "b", K: "k", X: 1, V: "v"})}},
 		{"merged+reopened", core.Cfg{Mode: core.KV, Seg: 100}, append(append([]core.Op(nil), kvOnly...), core.Op{Kind: "merge"}, core.Op{Kind: "reopen"})},
 	}
 }
@@ -234,7 +237,13 @@ func c20Profile(tier string, pairs bool) *eng.Profile {
 		leaf.Nontrivial = true
 		sts := states
 		if pairs {
-			sts = []c20State{states[0], states[1], states[7]}
+			sts = nil
+			for _, st := range states {
+				switch st.name {
+				case "empty", "populated", "emptied", "one-each":
+					sts = append(sts, st)
+				}
+			}
 		}
 		for _, st := range sts {
 			in := core.OpenInst(st.cfg)
@@ -266,7 +275,7 @@ func c20Profile(tier string, pairs bool) *eng.Profile {
 				leaf.Viol = append(leaf.Viol, eng.Violation{Prop: "C20", Kind: "panic", Cfg: st.cfg, Ops: append(append([]core.Op(nil), st.setup...), op),
 					What: what, Atoms: []string{what}, Tags: []string{op.Kind}, Detail: []string{"state " + st.name + ": " + op.String(), pan}})
 			}
-			leaf.ObsHash = core.Hash(fmt.Sprint(r.Calls, r.Err))
+			leaf.ObsHash = core.Hash(leaf.ObsHash + fmt.Sprint(r.Calls, r.Err)) // result vector over all states
 			in.Discard()
 		}
 		leaf.ModelHash = leaf.ObsHash
@@ -435,7 +444,7 @@ func init() {
 		Register(c20Profile(tier, true))
 	})
 	Registry["C20"] = func(r *Run) {
-		r.Rule = "every Tx API x boundary grid (keys nil,'','|','a|b',present,absent; buckets '','|',present,absent; ints {MinInt64,-2..4,MaxInt64} in every position; scores NaN,+-Inf,-0,1e308; regexps '', '(', '\\\\'; empty variadic lists) as the only call of a write transaction (then Commit), of a read-only transaction, and on a finished transaction, in each of 16 prepared states (empty, populated, reopened, one structure only, emptied structures, key-only rotated, sparse with sealed segments FileIO/MMap, merged, and the last four after a restart); every ordered pair (write call, representative of every write API) inside one transaction followed by Commit (thorough: triples for list/zset); DB-level API on degenerate Options, nil functions, closed databases, finished transactions. Oracle: no recovered panic, no hang. distinct = distinct result vectors"
+		r.Rule = "every Tx API x boundary grid (keys nil,'','|','a|b',present,absent; buckets '','|',present,absent; ints {MinInt64,-2..4,MaxInt64} in every position; scores NaN,+-Inf,-0,1e308; regexps '', '(', '\\\\'; empty variadic lists) as the only call of a write transaction (then Commit), of a read-only transaction, and on a finished transaction, in each of 17 prepared states (empty, populated, reopened, one structure only, emptied structures, key-only rotated, sparse with sealed segments FileIO/MMap, merged, and the last four after a restart); every ordered pair (write call, representative of every write API) inside one transaction followed by Commit (thorough: triples for list/zset); DB-level API on degenerate Options, nil functions, closed databases, finished transactions. Oracle: no recovered panic, no hang. distinct = distinct result vectors"
 		r.Assume = []string{"argument values outside the grid are not covered"}
 		r.Explore(c20Profile(r.Tier, false), "C20")
 		r.Explore(c20Profile(r.Tier, true), "C20")
